@@ -104,7 +104,7 @@ func runC15(p *core.Program, r *core.Report) {
 			want := s.other
 			x := newPathCtx(p)
 			atZero := guardedBy(fn, call.Block(), func(cd path.Cond, truth bool) bool {
-				if cd.Op != token.EQL || !truth {
+				if normCmp(cd.Op, truth) != "==" {
 					return false
 				}
 				k, ok := path.IntConst(cd.Y)
@@ -118,7 +118,7 @@ func runC15(p *core.Program, r *core.Report) {
 			if s.first != s.other && !atZero {
 				// must be dominated by the false edge of (offset == 0)
 				notZero := guardedBy(fn, call.Block(), func(cd path.Cond, truth bool) bool {
-					if cd.Op != token.EQL || truth {
+					if normCmp(cd.Op, truth) != "!=" {
 						return false
 					}
 					k, ok := path.IntConst(cd.Y)
@@ -162,11 +162,8 @@ func runC15(p *core.Program, r *core.Report) {
 			c.ob("PT1", s.name, "one rune out per rune in", p.InstrPos(nx), iff != nil && !skip, "an iteration can complete without appending a rune: characters are lost")
 		}
 		// result: conversion of the accumulated rune slice
-		for _, b := range fn.Blocks {
-			rt, ok := b.Instrs[len(b.Instrs)-1].(*ssa.Return)
-			if !ok {
-				continue
-			}
+		for _, alt := range returnAlternatives(fn, 0) {
+			rt := alt.ret
 			cv, ok := rt.Results[0].(*ssa.Convert)
 			okR := ok
 			if ok {
@@ -276,13 +273,10 @@ func runC15(p *core.Program, r *core.Report) {
 		}
 		x := newPathCtx(p)
 		str := ssa.Value(fn.Params[0])
-		for _, b := range fn.Blocks {
-			rt, ok := b.Instrs[len(b.Instrs)-1].(*ssa.Return)
-			if !ok {
-				continue
-			}
-			rv := path.Strip(rt.Results[0])
-			fs := edgeFacts(x, fn, b)
+		for _, alt := range returnAlternatives(fn, 0) {
+			rt := alt.ret
+			rv := path.Strip(alt.val)
+			fs := edgeFacts(x, fn, alt.blk)
 			long := hasFact(fs, "size", "<=", "len(str)") || hasFact(fs, "size", "<", "len(str)")
 			if long || rv == str {
 				c.ob("PT3", name, "long enough input returned unchanged", p.InstrPos(rt), long && rv == str, "the input must be returned unchanged exactly under size <= len(str)")
@@ -327,12 +321,9 @@ func runC15(p *core.Program, r *core.Report) {
 	if fn := c.fn("gogu.SplitAtIndex"); fn != nil {
 		x := newPathCtx(p)
 		str := ssa.Value(fn.Params[0])
-		for _, b := range fn.Blocks {
-			rt, ok := b.Instrs[len(b.Instrs)-1].(*ssa.Return)
-			if !ok {
-				continue
-			}
-			elems, ok := sliceLiteral(rt.Results[0])
+		for _, alt := range returnAlternatives(fn, 0) {
+			rt := alt.ret
+			elems, ok := sliceLiteral(alt.val)
 			if !ok || len(elems) != 2 {
 				c.ob("PV3", "gogu.SplitAtIndex", "two parts on every path", p.InstrPos(rt), false, "a return does not yield a two-element slice literal: the result can have fewer or more than two parts")
 				continue
@@ -392,11 +383,8 @@ func runC15(p *core.Program, r *core.Report) {
 			c.ob("PT3", "gogu.Unwrap", "cut only when both tokens fit", p.InstrPos(sl), room, "the cut is not dominated by len(str) >= 2*len(token): the two tokens may overlap and the slice bounds cross (panic)")
 		}
 		c.ob("AG6", "gogu.Unwrap", "one cut", c.fpos(fn), nCut == 1, "Unwrap must cut the string at exactly one site")
-		for _, b := range fn.Blocks {
-			rt, ok := b.Instrs[len(b.Instrs)-1].(*ssa.Return)
-			if !ok {
-				continue
-			}
+		for _, alt := range returnAlternatives(fn, 0) {
+			rt := alt.ret
 			okR := true
 			for _, o := range path.Origins(rt.Results[0]) {
 				if o == str {
